@@ -105,11 +105,88 @@ def rule_special_cases(repo: Repo, rep: Report) -> int:
     return n
 
 
+def syndrome_table_evaluated(ci, fi: FuncInfo):
+    """_build_syndrome_table run (own arithmetic) for a (6,3) code of distance 3 and the (7,4) Hamming code, with the encoder's
+    syndrome and the pattern generator supplied by the checker (all patterns of a weight, in lexicographic order): the
+    table must hold every one of the 2^r syndromes, each with an error pattern of that syndrome and of minimum weight."""
+    import itertools
+
+    from ..constfold import PySeq, Unfoldable
+    from ..frag import FragRaise, FragReturn, run_fragment
+
+    codes = [
+        [[1, 1, 0, 1, 0, 0], [0, 1, 1, 0, 1, 0], [1, 0, 1, 0, 0, 1]],
+        [[1, 1, 0, 1, 1, 0, 0], [1, 0, 1, 1, 0, 1, 0], [0, 1, 1, 1, 0, 0, 1]],
+        [[1, 1, 1, 0], [1, 0, 0, 1]],
+    ]
+    funcs = {f"self.{nm}": f_.node for nm, f_ in ci.methods.items() if nm in ("_syndrome_to_int",)}
+    count = 0
+    for H in codes:
+        r_, nn = len(H), len(H[0])
+
+        def syn(e, H=H):
+            e = e[0] if e and isinstance(e[0], list) else e
+            return [sum(H[i][j] * int(e[j]) for j in range(len(e))) % 2 for i in range(len(H))]
+
+        def patterns(w, nn=nn):
+            return [[1 if j in c else 0 for j in range(nn)] for c in itertools.combinations(range(nn), int(w))]
+
+        attrs = {"self.code_length": nn, "self.redundancy": r_, "self.code_dimension": nn - r_}
+        try:
+            run_fragment(fi.body, {}, attrs, funcs=funcs, ctors={"self.encoder.calculate_syndrome": syn, "self._generate_error_patterns": patterns}, materialise=True, max_steps=400000)
+            return None, "no value returned"
+        except FragReturn as ret:
+            tab = ret.value
+        except (Unfoldable, FragRaise, TypeError, IndexError, ValueError) as exc:
+            return None, str(exc)
+        if not isinstance(tab, dict):
+            return None, "result is not a dictionary"
+        # the integer key of a syndrome is the decoder's own convention: it is taken from the decoder's own conversion
+        from ..constfold import Folder
+
+        def key_of(sbits):
+            f_ = Folder({"__s": [float(b) for b in sbits]}, attrs)
+            f_.funcs = funcs
+            return f_.fold(ast.parse("self._syndrome_to_int(__s)", mode="eval").body)
+
+        # reference: minimum weight per syndrome
+        best: Dict[tuple, int] = {}
+        for w in range(nn + 1):
+            for e in patterns(w):
+                best.setdefault(tuple(syn(e)), w)
+        try:
+            keys = {key_of(sb): sb for sb in best}
+        except Unfoldable as exc:
+            return None, f"syndrome -> key conversion not evaluable ({exc})"
+        if len(keys) != len(best):
+            return VIOLATION, f"({nn},{nn - r_}) code: the syndrome -> integer conversion maps two syndromes to one key"
+        if sorted(tab) != sorted(keys):
+            return VIOLATION, f"({nn},{nn - r_}) code: the table has the keys {sorted(tab)}; all {2 ** r_} syndromes (keys {sorted(keys)}) must have a coset leader"
+        for k_, e in tab.items():
+            if not (isinstance(e, list) and len(e) == nn and all(x in (0, 1, 0.0, 1.0) for x in e)):
+                return None, "a table entry is not a 0/1 pattern"
+            sb = tuple(syn(e))
+            if keys[k_] != sb:
+                return VIOLATION, f"({nn},{nn - r_}) code: the pattern {[int(x) for x in e]} stored under the key of syndrome {list(keys[k_])} has syndrome {list(sb)}"
+            if sum(int(x) for x in e) != best[sb]:
+                return VIOLATION, f"({nn},{nn - r_}) code: syndrome {list(sb)} is given the leader {[int(x) for x in e]} of weight {sum(int(x) for x in e)}; its coset contains a pattern of weight {best[sb]}: the decoder does not return the nearest codeword (not maximum likelihood on the BSC)"
+            count += 1
+    return OK, f"every syndrome has a coset leader of minimum weight ({count} cosets of three small codes; patterns supplied in ascending weight)"
+
+
 def rule_syndrome_table(repo: Repo, rep: Report) -> int:
     ci = repo.cls(SL, "SyndromeLookupDecoder")
     fi = repo.method(ci, "_build_syndrome_table")
     n = 0
     loops = [s for s in fi.body if isinstance(s, ast.For)]
+    # unlisted spellings of the table construction are decided by running it
+    body_txt = statement_texts(fi)
+    listed = len(loops) == 1 and any("syndrome_int not in table" in t_ for t_ in body_txt) and any(t_ == "syndrome = self.encoder.calculate_syndrome(error_pattern)" for t_ in body_txt)
+    if not listed:
+        est, edetail = syndrome_table_evaluated(ci, fi)
+        if est is not None:
+            rep.add("COSET-LEADER", fi, "_build_syndrome_table evaluated on three small codes", est, edetail, node=fi.node)
+            return 4 + rule_syndrome_rest(repo, rep, ci)
     if len(loops) != 1:
         rep.undecided("COSET-LEADER", fi, "weight loop", f"{len(loops)} top-level loops")
         return 1
@@ -136,6 +213,13 @@ def rule_syndrome_table(repo: Repo, rep: Report) -> int:
         syn = [s for s in stmts_of(inner[0].body) if isinstance(s, ast.Assign) and unparse(s.targets[0]) == "syndrome"]
         rep.expect(len(syn) == 1 and unparse(syn[0].value) == "self.encoder.calculate_syndrome(error_pattern)", "COSET-LEADER", fi, f"syndrome of the pattern: {unparse(syn[0].value) if syn else '?'}", "computed with the encoder's own check matrix", "pattern syndromes are not computed by the encoder")
         n += 2
+    return n + rule_syndrome_rest(repo, rep, ci)
+
+
+def rule_syndrome_rest(repo: Repo, rep: Report, ci) -> int:
+    """pattern generator and the correction step of forward (the part of the syndrome-lookup rule that does not depend on
+    how the table is filled)"""
+    n = 0
     # exhaustive pattern generator
     gp = repo.method(ci, "_generate_error_patterns")
     rec = gp.nested("generate_recursive")
